@@ -206,17 +206,25 @@ def client_json(t, port, server_port, pick=None, legacy_pw=None, names=None):
     return c
 
 
+def peer_cipher(t):
+    """The documented cipher name a real peer of `t` is configured with."""
+    c = CANON.get(t["cipher"], t["cipher"])
+    if t["proto"] in ("vmess", "trojan") and c not in e2e.VMESS_CIPHERS:
+        c = "aes-128-gcm"       # the cipher field selects nothing on a VMess server / a Trojan peer; the peer uses a documented name
+    return c
+
+
 def peer_server_json(t, port, legacy_pw=None):
     """A real, documented server for a client under test (same credentials, every listener the client may need)."""
     tt = dict(t, side="server", key="exact" if t["cipher"].startswith("2022-") and t["proto"] == "shadowsocks" else "password",
-              cipher=CANON.get(t["cipher"], t["cipher"]))
+              cipher=peer_cipher(t))
     tt["mode"] = "tcp_and_udp" if (t["proto"] == "shadowsocks" and t["link"] == "tcp") else ("quic" if t["proto"] == "shadowsocks" and t["link"] == "quic" else "absent")
     return server_json(tt, port, legacy_pw=legacy_pw)
 
 
 def peer_client_json(t, port, server_port, legacy_pw=None):
     tt = dict(t, side="client", mode="tcp", key="exact" if t["cipher"].startswith("2022-") and t["proto"] == "shadowsocks" else "password",
-              cipher=CANON.get(t["cipher"], t["cipher"]))
+              cipher=peer_cipher(t))
     return client_json(tt, port, server_port, legacy_pw=legacy_pw)
 
 
@@ -457,8 +465,8 @@ def model(c):
     if not r.replay:
         raise vlib.ToolError("no configuration tuples exported")
     seen = {}
-    jobs = [dict(module="Config", cfg="Config_dev_%s.cfg" % k, workers=2, timeout=300) for k in ("QuicNoTcp", "ShortKeyPadded", "UdpModeExits")]
-    for k, d in zip(("QuicNoTcp", "ShortKeyPadded", "UdpModeExits"), vlib.tlc_parallel(jobs, parallel=3)):
+    jobs = [dict(module="Config", cfg="Config_dev_%s.cfg" % k, workers=2, timeout=300) for k in ("QuicNoTcp", "ShortKeyPadded", "UdpModeExits", "VMessAnyCipher")]
+    for k, d in zip(("QuicNoTcp", "ShortKeyPadded", "UdpModeExits", "VMessAnyCipher"), vlib.tlc_parallel(jobs, parallel=4)):
         seen[k] = d.violated
         if d.violated != "ImplConforms":
             raise vlib.ToolError("anti-vacuity: deviation %s not detected by the Config model" % k)
